@@ -63,9 +63,12 @@ def stepAction (env : Env) (a : Action) (tokens : Array Nat) : M (String × Arra
   match a with
   | .create i =>
     match ← elabInstr [] .unit i with
-    | some n => pure (s!"ok n{n}", tokens)
+    | some n =>
+      modify fun s => { s with top := s.top.push n }
+      pure (s!"ok #{n}", tokens)
     | none => pure ("ok", tokens)
   | .observe n =>
+    let n ← resolveOpnd [] n
     let o := (← get).observers.size
     modify fun s => { s with observers := s.observers.push { node := n }, newObservers := s.newObservers ++ [o] }
     bumpCounter fun c => { c with activeObservers := c.activeObservers + 1 }
